@@ -402,6 +402,33 @@ func genPool(c *lib.Ctx, r *lib.RNG, size int) []item {
 		v := randVal(r, sc, 3)
 		pool = append(pool, mk("rand:"+tagOf(v), v))
 	}
+	// LARGE values (tenth of the pools at quick, more at thorough, carry a family of them): maps of 17–70 pairs and
+	// slices of 17–70 elements, each with a sibling that has one pair / element more and one that differs in the last
+	// pair only, strings and binaries of 40–300 bytes – every other value of the pools has at most a handful of
+	// parts (seeded change c14k: Map.Compare looked at the sizes first when the RECEIVER had more than 16 pairs)
+	if r.Chance(1, 2) {
+		n := lib.Pick(r, []int{17, 18, 24, 33, 40, 65, 70})
+		var ps, es []types.Value
+		for i := 0; i < n; i++ {
+			var k types.Value
+			switch r.Intn(3) {
+			case 0:
+				k = types.NewInt(i)
+			case 1:
+				k = str(fmt.Sprintf("k%02d", i))
+			default:
+				k = types.NewUint8(uint8(i))
+			}
+			ps = append(ps, k, randScalar(r, sc))
+			es = append(es, randScalar(r, sc))
+		}
+		more := append(append([]types.Value{}, ps...), str("one-more"), types.NewInt(1))
+		last := append([]types.Value{}, ps...)
+		last[len(last)-1] = str("other-last")
+		pool = append(pool, mk("big:map", types.NewMap(ps...)), mk("big:map+1", types.NewMap(more...)), mk("big:map-last", types.NewMap(last...)),
+			mk("big:map:mutable", mutMap(ps...)), mk("big:slice", types.NewSlice(es...)), mk("big:slice+1", types.NewSlice(append(append([]types.Value{}, es...), types.NewInt(1))...)),
+			mk("big:string", str(strings.Repeat("ab", 20+r.Intn(130)))), mk("big:binary", bin(strings.Repeat("\x00\xff", 20+r.Intn(130)))))
+	}
 	// two buffers: identity semantics, no wire form – oracle only
 	pool = append(pool, mk("buffer", types.NewBuffer(bytes.NewReader([]byte("a")))), mk("buffer", types.NewBuffer(bytes.NewReader([]byte("a")))))
 	for _, it := range pool {
